@@ -34,7 +34,7 @@ func init() {
 			"race freedom is what the Go race detector reports on the executions produced (GORACE log, report blocks counted)",
 		},
 		Require: []string{"testdrv_histories", "testdrv_relistens", "testdrv_sends_before_first_listen", "testdrv_sends_closed", "testdrv_deliveries",
-			"mc_histories", "mc_deliveries", "mc_overlapping_sends", "mc_exactly_once_checks", "mc_stop_stamp_checks", "mc_porcupine_histories", "mc_relistens", "mc_stops_with_traffic_in_flight", "open_unstartable_probes", "helper_dies_probes", "mc_slow_callback_stops", "close_with_traffic_probes", "mc_opens_from_dying_thread", "mc_listento_deliveries", "mc_dumps_sent_by_concurrent_senders"},
+			"mc_histories", "mc_deliveries", "mc_overlapping_sends", "mc_exactly_once_checks", "mc_stop_stamp_checks", "mc_porcupine_histories", "mc_relistens", "mc_stops_with_traffic_in_flight", "open_unstartable_probes", "helper_dies_probes", "mc_slow_callback_stops", "close_with_traffic_probes", "mc_opens_from_dying_thread", "mc_listento_deliveries", "mc_dumps_sent_by_concurrent_senders", "mc_bursts_behind_slow_callback"},
 		Workers: 8,
 		UsesCur: true,
 		Run:     runC17,
@@ -140,6 +140,7 @@ func runC17(c *mon.Ctx) {
 	})
 
 	c.Each("midicat-slow-callback", 1, func(_ int64, _ *mon.Rand) { runSlowCallbackHistory(c) })
+	c.Each("midicat-burst-behind-slow-callback", 1, func(_ int64, _ *mon.Rand) { runBurstBehindSlowCallback(c) })
 
 	// (c) no call blocks forever when the helper cannot be started
 	c.Each("open-unstartable", 6, func(i int64, _ *mon.Rand) {
